@@ -293,6 +293,29 @@ ADDENDA3 = {
     "C18": "; literal in place of a CLI option inside main(); cwd-independent configuration directory; default round trip of enum-valued keys (shared with C13-b)",
     "C19": "; polynomial pairing of quantised codes with their zero points; shift guard / use agreement",
 }
+ADDENDA4 = {
+    "C02": "; weight-buffer reservation vs the slices copied into each buffer (single-buffer case: largest slice of all)",
+    "C03": "; write-protection test on every reuse branch of _get_ifm_to_fuse; skirt as polynomials; convert_pad tiling",
+    "C04": "; argument / parameter role stems at call sites; LUT guard dominance",
+    "C05": "; dominance of get_or_create_range",
+    "C06": "; rescale precedence; clauses shared with C15-e, C04-a, C10-d",
+    "C07": "; malloc element count (helpers inlined, sizeof evaluated from the clang AST) vs unconditional constant-index stores, with early-return guards and caller reachability up to exported functions",
+    "C08": "; value_id refresh after every attribute-dependent in-place rewrite of an existing weight tensor; per-core DMA source under core == 0",
+    "C09": "; ExplicitScaling index pairing of the squared-difference lowering",
+    "C10": "; minimal-schedule even stripes from the op's own resampling; producer / consumer stems at rolling_buffer_shape",
+    "C11": "; positional operands, reversed Prepend loops, order-preserving output list; operator-code key components in registration and lookup; mutation-free rewrites before the supported-operator check; hoisting test quantified over all pass inputs",
+    "C12": "; clauses shared with C03-f and C11-b",
+    "C13": "; typestate of non-constant operands over the interpreted constraint registration order (paths explored under values = None); array-valued quantisation fields as truth values; absent flatbuffer vectors; element types admitted by constraints vs the LUT dispatch; restricted-domain functions; reshape element counts as polynomials; stale cached extents by reaching definitions; Python int constants outside int32 meeting tensor dimensions",
+    "C14": "; cache keys unique to one compilation or reset at every entry point (memoised value ids enumerated); uninitialised allocations; ordering methods and sort keys over identity-ordered values",
+    "C15": "; scheduler / generator scalar predicate; freshness of the public query's result (no process-wide memo); clause shared with C10-d",
+    "C16": "; attributes read by constraints are delivered by the option table of the operators they are registered for; exact-equality recogniser; clause shared with C11-d",
+    "C17": "; parameter purity of create_driver_payload; per-core SHRAM size as a polynomial",
+    "C18": "; by-value enum defaults under the current numbering; construction sites of the i.MX93 architecture subclass",
+    "C19": "; tie probes of the 16-bit multiplier; softmax table boundary; log(0) stand-in value; nested table helpers interpreted",
+}
+for _pid, _t4 in ADDENDA4.items():
+    _tech, _text, _note, _ref = CLAIMS[_pid]
+    CLAIMS[_pid] = (_tech + _t4, _text, _note, _ref)
 for _pid, _t3 in ADDENDA3.items():
     _tech, _text, _note, _ref = CLAIMS[_pid]
     CLAIMS[_pid] = (_tech + _t3, _text, _note, _ref)
